@@ -39,9 +39,20 @@ fn real_vs_stub() -> Value {
 const ST_PROPS: [&str; 11] = ["C01", "C03", "C04", "C05", "C08", "C10", "C13", "C16", "C17", "C18", "C20"];
 const MT_PROPS: [&str; 4] = ["C02", "C07", "C12", "C13"];
 
+/// Which runs of a property's batch are scheduled multi-thread runs.
+fn mt_run(prop: &str, run: u64) -> bool {
+    match prop {
+        "C02" | "C07" | "C12" => true,
+        "C13" => crate::rng::mix(run) % 2 == 1,
+        // zero-fill must also hold when the released space is recycled under an interleaving
+        "C08" | "C03" => crate::rng::mix(run) % 16 == 15,
+        _ => false,
+    }
+}
+
 fn mt_flavour(prop: &str) -> MtFlavour {
     match prop {
-        "C02" => MtFlavour::Safety,
+        "C02" | "C08" | "C03" => MtFlavour::Safety,
         "C07" => MtFlavour::Liveness,
         "C12" => MtFlavour::Hb,
         _ => MtFlavour::Lifecycle,
@@ -249,7 +260,7 @@ fn run_one_inner(prop: &str, seed: u64, run: u64, tier: &str) -> RunSummary {
         let (spec, out) = crate::diff::gen_c11(seed, run);
         return summarise_diff(prop, &spec, &out, "c11");
     }
-    if prop == "C17" && run % 2 == 1 {
+    if prop == "C17" && crate::rng::mix(run) % 2 == 1 {
         let (spec, _, out) = crate::diff::gen_clear(seed, run);
         return summarise_diff(prop, &spec, &out, "clear");
     }
@@ -260,11 +271,11 @@ fn run_one_inner(prop: &str, seed: u64, run: u64, tier: &str) -> RunSummary {
         return RunSummary { viols, nontrivial: true, hash: crate::rng::mix(run ^ 0xC16), state_hash: run, steps: 0, ops: n, faults: BTreeMap::new(), probes,
             sample: if run == 9 { Some(json!({"scenario": "sweep", "reserved": run, "configurations": n})) } else { None } };
     }
-    if prop == "C16" && run % 2 == 1 {
+    if prop == "C16" && crate::rng::mix(run) % 2 == 1 {
         let (spec, out) = crate::diff::gen_backends(seed, run);
         return summarise_diff(prop, &spec, &out, "backends");
     }
-    if MT_PROPS.contains(&prop) && (prop != "C13" || run % 2 == 1) {
+    if mt_run(prop, run) {
         let spec = mtscen::gen_spec(seed, run, mt_flavour(prop));
         let out = mtscen::run_spec(&spec, false);
         return summarise_mt(prop, &spec, &out);
@@ -310,7 +321,7 @@ pub fn minimise(prop: &str, seed: u64, run: u64, tier: &str, sig: &str) -> Optio
         let v2 = fin.viols.iter().find(|x| x.signature() == sig).cloned().unwrap_or(v);
         return Some(diff_replay_json(prop, "c11", seed, run, &spec, &ops, &v2, None));
     }
-    if prop == "C17" && run % 2 == 1 {
+    if prop == "C17" && crate::rng::mix(run) % 2 == 1 {
         let (spec, clear_at, out) = crate::diff::gen_clear(seed, run);
         let v = out.viols.iter().find(|v| v.signature() == sig)?.clone();
         // only the history after the clear is minimised (indices before it must stay put)
@@ -326,13 +337,13 @@ pub fn minimise(prop: &str, seed: u64, run: u64, tier: &str, sig: &str) -> Optio
         let v = viols.iter().find(|v| v.signature() == sig)?.clone();
         return Some(json!({"format": "rsim-replay-1", "scenario": "sweep", "property": prop, "seed": seed, "run": run, "reserved": run, "violation": v.to_json(), "signature": sig}));
     }
-    if prop == "C16" && run % 2 == 1 {
+    if prop == "C16" && crate::rng::mix(run) % 2 == 1 {
         let (spec, out) = crate::diff::gen_backends(seed, run);
         let v = out.viols.iter().find(|v| v.signature() == sig)?.clone();
         let ops = st::minimise_ops(&out.ops, sig, 200, |o| { tag += 1; crate::diff::replay_backends(&spec, o, tag).viols });
         return Some(diff_replay_json(prop, "backends", seed, run, &spec, &ops, &v, None));
     }
-    if MT_PROPS.contains(&prop) && (prop != "C13" || run % 2 == 1) {
+    if mt_run(prop, run) {
         let spec = mtscen::gen_spec(seed, run, mt_flavour(prop));
         let out = mtscen::run_spec(&spec, false);
         let v = out.viols.iter().find(|v| mtscen::mt_signature(v) == sig)?.clone();
